@@ -1,7 +1,7 @@
 PROP = dict(
     id="C06",
     lean_modules=["TongoProofs.C06"],
-    gen=[],
+    gen=["MinBits"],
     spec_ops=("bs.spec",),
     rule="operation sequences of 20..200 random items over all read/write methods on capacities 0..2000 (boundaries "
          "over-weighted), widths 0..64 biased to 0/1/7/8/9/55..58/63/64, big-int widths 1..257; "
